@@ -163,14 +163,29 @@ def _par_entry(args):
     import traceback
     mod = importlib.import_module(modname)
     sub = Checker(pid, tier, repo, seed)
+    import signal
+    import time as _t
+
+    def _alarm(_sig, _frm):
+        raise TimeoutError(f"analysis task exceeded its time budget")
+    t0 = _t.time()
+    try:
+        signal.signal(signal.SIGALRM, _alarm)
+        signal.alarm(int(os.environ.get("SPVERIF_TASK_TIMEOUT", "240")))
+    except (ValueError, AttributeError):
+        pass
     try:
         getattr(mod, fname)(sub, task)
+        signal.alarm(0)
+        sub.analysed["slowest task s"] = 0
+        sub.notes.append((round(_t.time() - t0, 2), str(task)[:80]))
     except Exception as e:  # noqa: BLE001 - fail closed in the parent
+        signal.alarm(0)
         sub.unknown("ENGINE", "spverif", f"worker task {str(task)[:80]}", f"{type(e).__name__}: {e} | {traceback.format_exc()[-600:]}")
     for o in sub.obs:
         if o.get("witness") is not None:
             o["witness"] = str(o["witness"])
-    return sub.obs, sub.floors, sub.analysed
+    return sub.obs, sub.floors, sub.analysed, sub.notes
 
 
 def run_parallel(ck, modname, fname, tasks, jobs=None):
@@ -185,7 +200,8 @@ def run_parallel(ck, modname, fname, tasks, jobs=None):
     else:
         with cf.ProcessPoolExecutor(max_workers=jobs) as ex:
             results = list(ex.map(_par_entry, args, chunksize=1))
-    for obs, floors, analysed in results:
+    for obs, floors, analysed, notes in results:
+        ck.notes.extend(f"task {n[1]}: {n[0]} s" for n in notes if isinstance(n, tuple) and n[0] > 5)
         ck.obs.extend(obs)
         ck.floors.extend(floors)
         for k, v in analysed.items():
